@@ -91,37 +91,51 @@ theorem PrefixCode.rest {α : Type} {f : α → Str} (h : PrefixCode f) {a b r s
 theorem PrefixCode.injective {α : Type} {f : α → Str} (h : PrefixCode f) {a b} (e : f a = f b) :
     a = b := h a b [] [] (by simpa using e)
 
+/-- Prefix code on the arguments satisfying `S`. -/
+def PrefixCodeOn {α : Type} (S : α → Prop) (f : α → Str) : Prop :=
+  ∀ a b r s, S a → S b → f a ++ r = f b ++ s → a = b
+
+theorem PrefixCodeOn.rest {α : Type} {S : α → Prop} {f : α → Str} (h : PrefixCodeOn S f) {a b r s}
+    (ha : S a) (hb : S b) (e : f a ++ r = f b ++ s) : a = b ∧ r = s := by
+  have := h a b r s ha hb e
+  subst this
+  exact ⟨rfl, List.append_cancel_left e⟩
+
+theorem PrefixCode.on {α : Type} {f : α → Str} (h : PrefixCode f) (S : α → Prop) : PrefixCodeOn S f :=
+  fun a b r s _ _ e => h a b r s e
+
 /-- Fixed-width signature followed by a prefix-coded payload, concatenated: injective. -/
-theorem flatten_sig_payload_inj {P : Type} {reprP : P → Str} (hp : PrefixCode reprP) {n : Nat}
-    (hn : 0 < n) : ∀ {es fs : List (Str × P)},
+theorem flatten_sig_payload_inj {P : Type} {S : P → Prop} {reprP : P → Str}
+    (hp : PrefixCodeOn S reprP) {n : Nat} (hn : 0 < n) : ∀ {es fs : List (Str × P)},
     (∀ e ∈ es, e.1.length = n) → (∀ e ∈ fs, e.1.length = n) →
+    (∀ e ∈ es, S e.2) → (∀ e ∈ fs, S e.2) →
     (es.map (fun e => e.1 ++ reprP e.2)).flatten = (fs.map (fun e => e.1 ++ reprP e.2)).flatten →
     es = fs
-  | [], [], _, _, _ => rfl
-  | [], f :: fs, _, hf, h => by
+  | [], [], _, _, _, _, _ => rfl
+  | [], f :: fs, _, hf, _, _, h => by
     have := hf f List.mem_cons_self
     have h' := congrArg List.length h
     rw [List.map_cons, List.flatten_cons, List.length_append, List.length_append] at h'
     simp only [List.map_nil, List.flatten_nil, List.length_nil] at h'
     omega
-  | e :: es, [], he, _, h => by
+  | e :: es, [], he, _, _, _, h => by
     have := he e List.mem_cons_self
     have h' := congrArg List.length h
     rw [List.map_cons, List.flatten_cons, List.length_append, List.length_append] at h'
     simp only [List.map_nil, List.flatten_nil, List.length_nil] at h'
     omega
-  | e :: es, f :: fs, he, hf, h => by
+  | e :: es, f :: fs, he, hf, se, sf, h => by
     simp only [List.map_cons, List.flatten_cons, List.append_assoc] at h
     have hlen : e.1.length = f.1.length := by
       rw [he e List.mem_cons_self, hf f List.mem_cons_self]
     obtain ⟨h1, h2⟩ := List.append_inj h hlen
-    obtain ⟨h3, h4⟩ := hp.rest h2
+    obtain ⟨h3, h4⟩ := hp.rest (se e List.mem_cons_self) (sf f List.mem_cons_self) h2
     have := flatten_sig_payload_inj hp hn (fun z hz => he z (List.mem_cons_of_mem _ hz))
-      (fun z hz => hf z (List.mem_cons_of_mem _ hz)) h4
+      (fun z hz => hf z (List.mem_cons_of_mem _ hz)) (fun z hz => se z (List.mem_cons_of_mem _ hz))
+      (fun z hz => sf z (List.mem_cons_of_mem _ hz)) h4
     rw [this]
     congr 1
     exact Prod.ext h1 h3
-
 
 /-! ## Decimal digits -/
 
@@ -1508,6 +1522,134 @@ theorem reprFlt_inj : FltInjOn Flt.Norm := by
         (bodyOf_digitHead n2 (fun c hc => dC_digit hc) q) h
       obtain ⟨h1, h2⟩ := bodyOf_inj (ds := ds) (es := es) hf hg hb
       rw [hs, h1, h2]
+
+/-! ## The points key `dtype.str ++ str(shape) ++ digest` -/
+
+/-- `repr(int)` never starts with a character that is neither a digit nor `-`. -/
+theorem reprInt_headNe {c : Char} (hd : isDigitC c = false) (hm : c ≠ '-') : HeadNe reprInt c := by
+  intro a r t h
+  have hm' : c ∈ reprInt a := by
+    cases hr : reprInt a with
+    | nil =>
+      exfalso
+      unfold reprInt at hr
+      split at hr
+      · simp at hr
+      · exact natDigits_ne_nil _ hr
+    | cons x u =>
+      rw [hr] at h
+      simp only [List.cons_append, List.cons.injEq] at h
+      rw [h.1]; exact List.mem_cons_self
+  rcases reprInt_chars hm' with h' | h'
+  · rw [hd] at h'; cases h'
+  · exact hm h'
+
+theorem natRepr_delim : DelimOn (fun _ : Nat => True) (fun n => reprInt (Int.ofNat n)) := by
+  intro a b r s _ _ hr hs h
+  obtain ⟨h1, h2⟩ := reprInt_delim _ _ _ _ trivial trivial hr hs h
+  exact ⟨Int.ofNat.inj h1, h2⟩
+
+theorem tupleOf_head (parts : List Str) : ∃ t, tupleOf parts = '(' :: t := by
+  unfold tupleOf
+  split <;> exact ⟨_, rfl⟩
+
+/-- `str(shape)` can be read back from the front of any text. -/
+theorem shapeRepr_prefix (a b : List Nat) (r s : Str) (h : shapeRepr a ++ r = shapeRepr b ++ s) :
+    a = b ∧ r = s :=
+  tupleOf_inj natRepr_delim
+    (fun n _ r t => reprInt_headNe (c := ')') (by decide) (by decide) (Int.ofNat n) r t)
+    a b r s (fun _ _ => trivial) (fun _ _ => trivial) h
+
+theorem joined_ints_no_semi : ∀ (xs : List Int), ';' ∉ joinWith (cs! ", ") (xs.map reprInt)
+  | [] => by simp [joinWith]
+  | x :: xs => by
+    rw [List.map_cons, joinWith_cons]
+    intro hm
+    rcases List.mem_append.mp hm with hm | hm
+    · have := reprInt_chars hm
+      revert this; decide
+    · cases xs with
+      | nil => simp [joinTail] at hm
+      | cons y ys =>
+        simp only [List.map_cons, joinTail, List.cons_append, List.nil_append, List.mem_cons] at hm
+        rcases hm with hm | hm | hm
+        · revert hm; decide
+        · revert hm; decide
+        · exact joined_ints_no_semi (y :: ys) hm
+
+theorem shapeRepr_no_semi (sh : List Nat) : ';' ∉ shapeRepr sh := by
+  have key := joined_ints_no_semi (sh.map Int.ofNat)
+  rw [List.map_map] at key
+  intro hm
+  unfold shapeRepr tupleOf at hm
+  split at hm
+  · rename_i a heq
+    cases sh with
+    | nil => simp at heq
+    | cons n ns =>
+      cases ns with
+      | nil =>
+        simp only [List.map_cons, List.map_nil, List.cons.injEq, and_true] at heq
+        subst heq
+        simp only [List.mem_cons, List.mem_append, List.not_mem_nil, or_false] at hm
+        rcases hm with hm | hm | hm | hm
+        · revert hm; decide
+        · have := reprInt_chars hm
+          revert this; decide
+        · revert hm; decide
+        · revert hm; decide
+      | cons m ms => simp at heq
+  · simp only [List.mem_cons, List.mem_append, List.not_mem_nil, or_false] at hm
+    rcases hm with hm | hm | hm
+    · revert hm; decide
+    · exact key hm
+    · revert hm; decide
+
+section PointsKey
+variable {B : Type} (digest : B → Str)
+
+/-- Points the theorems speak about: the dtype string has no `(` and no `;`, the bytes belong to
+the set `D` of explored inputs. -/
+def Pts.OK (D : B → Prop) (p : Pts B) : Prop := '(' ∉ p.dtype ∧ ';' ∉ p.dtype ∧ D p.data
+
+/-- The points key can be read back from the front of any text, provided the digest has fixed width
+and is injective on the explored byte strings. -/
+theorem pointsKey_prefix {D : B → Prop} (hlen : ∀ b, (digest b).length = 40)
+    (hinj : ∀ a b, D a → D b → digest a = digest b → a = b) :
+    PrefixCodeOn (Pts.OK D) (pointsKey digest) := by
+  intro p q r s hp hq h
+  unfold pointsKey at h
+  simp only [List.append_assoc] at h
+  obtain ⟨t₁, e₁⟩ := tupleOf_head (p.shape.map fun n => reprInt (Int.ofNat n))
+  obtain ⟨t₂, e₂⟩ := tupleOf_head (q.shape.map fun n => reprInt (Int.ofNat n))
+  have h' := h
+  unfold shapeRepr at h'
+  rw [e₁, e₂] at h'
+  simp only [List.cons_append] at h'
+  obtain ⟨hd, hrest⟩ := split_sep hp.1 hq.1 h'
+  have h2 : shapeRepr p.shape ++ (digest p.data ++ r) = shapeRepr q.shape ++ (digest q.data ++ s) := by
+    unfold shapeRepr
+    rw [e₁, e₂]
+    simp only [List.cons_append, List.cons.injEq, true_and]
+    exact hrest
+  obtain ⟨hs, h3⟩ := shapeRepr_prefix _ _ _ _ h2
+  obtain ⟨h4, _⟩ := List.append_inj h3 (by rw [hlen, hlen])
+  have hdat := hinj _ _ hp.2.2 hq.2.2 h4
+  cases p; cases q
+  simp_all
+
+theorem pointsKey_no_semi {D : B → Prop} (hhex : ∀ b, ∀ c ∈ digest b, isHexChar c = true)
+    (p : Pts B) (hp : Pts.OK D p) : ';' ∉ pointsKey digest p := by
+  intro hm
+  unfold pointsKey at hm
+  rcases List.mem_append.mp hm with hm | hm
+  · rcases List.mem_append.mp hm with hm | hm
+    · exact hp.2.1 hm
+    · exact shapeRepr_no_semi _ hm
+  · have := hhex _ _ hm
+    revert this; decide
+
+end PointsKey
 
 end Ffcx.Naming
 
